@@ -69,6 +69,10 @@ pub trait Check: Sync {
     fn workers(&self, _tier: Tier) -> usize {
         16
     }
+    /// build profile ("release" or "debug") of worker `k`; debug = overflow checks and debug assertions on
+    fn worker_profile(&self, _k: usize) -> &'static str {
+        "release"
+    }
     /// called once per process before any run
     fn prepare(&self, _tier: Tier) {}
     /// extra evidence keys computed after the batch (optional)
@@ -98,6 +102,7 @@ struct Args {
     out: Option<PathBuf>,
     replay: Option<PathBuf>,
     minimise: Option<PathBuf>,
+    annotate: Option<PathBuf>,
     selftest: Option<u64>,
     cases_override: Option<u64>,
     list_hashes: bool,
@@ -115,6 +120,7 @@ fn parse_args(argv: &[String]) -> Args {
         out: None,
         replay: None,
         minimise: None,
+        annotate: None,
         selftest: None,
         cases_override: std::env::var("VERIF_CASES").ok().and_then(|s| s.parse().ok()),
         list_hashes: false,
@@ -146,6 +152,7 @@ fn parse_args(argv: &[String]) -> Args {
             "--out" => a.out = Some(PathBuf::from(nextv(&mut i))),
             "--replay" => a.replay = Some(PathBuf::from(nextv(&mut i))),
             "--minimise" => a.minimise = Some(PathBuf::from(nextv(&mut i))),
+            "--annotate" => a.annotate = Some(PathBuf::from(nextv(&mut i))),
             "--selftest-determinism" => a.selftest = Some(500),
             "--n" => a.selftest = Some(nextv(&mut i).parse().unwrap()),
             "--cases" => a.cases_override = Some(nextv(&mut i).parse().unwrap()),
@@ -183,6 +190,10 @@ pub fn main_for(check: &dyn Check, argv: &[String]) -> ! {
     if let Some(f) = &a.minimise {
         check.prepare(a.tier);
         minimise_main(check, f, a.tier);
+    }
+    if let Some(f) = &a.annotate {
+        check.prepare(a.tier);
+        annotate_main(check, f, a.tier);
     }
     if let Some((k, w)) = a.worker {
         check.prepare(a.tier);
@@ -287,6 +298,7 @@ fn worker_main(check: &dyn Check, a: &Args, k: u64, w: u64) -> ! {
                 violations.push(json!({
                     "sig": v.sig, "detail": v.detail, "case": case,
                     "seed": case_seed(a.seed, check.id(), case),
+                    "batch_seed": a.seed, "profile": current_profile(),
                     "values": out.decisions.iter().map(|d| d.2).collect::<Vec<u32>>(),
                 }));
             }
@@ -354,14 +366,32 @@ fn read_u64s(p: &Path) -> Vec<u64> {
     b.chunks_exact(8).map(|c| u64::from_le_bytes(c.try_into().unwrap())).collect()
 }
 
-fn run_workers(check: &dyn Check, a: &Args, nworkers: usize, tag: &str, list_hashes: bool) -> Merged {
+pub fn exe_for(profile: &str) -> PathBuf {
     let exe = std::env::current_exe().unwrap();
+    let s = exe.to_string_lossy().to_string();
+    let cur = if s.contains("/debug/") { "debug" } else { "release" };
+    if cur == profile {
+        exe
+    } else {
+        PathBuf::from(s.replace(&format!("/{cur}/"), &format!("/{profile}/")))
+    }
+}
+
+pub fn current_profile() -> &'static str {
+    if cfg!(debug_assertions) {
+        "debug"
+    } else {
+        "release"
+    }
+}
+
+fn run_workers(check: &dyn Check, a: &Args, nworkers: usize, tag: &str, list_hashes: bool) -> Merged {
     let wd = work_dir();
     let mut kids = Vec::new();
     for k in 0..nworkers {
         let out = wd.join(format!("{}.{}.{}.json", check.id(), tag, k));
         let _ = std::fs::remove_file(&out);
-        let mut c = std::process::Command::new(&exe);
+        let mut c = std::process::Command::new(exe_for(check.worker_profile(k)));
         c.arg(check.id())
             .arg("--worker").arg(k.to_string())
             .arg("--of").arg(nworkers.to_string())
@@ -411,6 +441,7 @@ fn run_workers(check: &dyn Check, a: &Args, nworkers: usize, tag: &str, list_has
             m.violations.push(json!({
                 "sig": sig, "detail": format!("worker process died ({how}) while running case {case}"),
                 "case": case, "seed": case_seed(a.seed, check.id(), case), "values": Value::Null,
+                "batch_seed": a.seed, "profile": check.worker_profile(k as usize),
             }));
             continue;
         }
@@ -487,7 +518,6 @@ fn sig_file_name(id: &str, sig: &str) -> String {
 }
 
 fn write_replay(check: &dyn Check, v: &Value, tier: Tier) -> PathBuf {
-    // re-run with recording to capture the trace, then write the file
     let case = v["case"].as_u64().unwrap_or(0);
     let sig = v["sig"].as_str().unwrap_or("").to_string();
     let dir = verif_root().join("replays");
@@ -496,22 +526,35 @@ fn write_replay(check: &dyn Check, v: &Value, tier: Tier) -> PathBuf {
     let mut file = json!({
         "property": check.id(), "engine": check.engine(), "case": case, "seed": v["seed"],
         "signature": sig, "detail": v["detail"], "tier": tier.name(),
+        "batch_seed": v["batch_seed"], "profile": v["profile"], "minimised_from": v["minimised_from"],
     });
-    if let Some(vals) = v["values"].as_array() {
-        let vals: Vec<u32> = vals.iter().map(|x| x.as_u64().unwrap_or(0) as u32).collect();
-        if !sig.starts_with("crash|") {
-            let out = check.run(case, Dec::from_list(vals.clone()), &RunOpts { record: true, tier });
-            file["decisions"] = decisions_json(&out.decisions);
-            file["events"] = json!(out.events);
-            file["trace_hash"] = json!(format!("{:016x}", out.hash));
-            let faults: Vec<&String> = out.events.iter().filter(|e| e.contains("fault")).collect();
-            file["fault_log"] = json!(faults);
-            file["reproduced_signature"] = json!(out.violation.as_ref().map(|x| x.sig.clone()));
-        }
-        file["values"] = json!(vals);
+    if v["values"].is_array() {
+        file["values"] = v["values"].clone();
     }
     std::fs::write(&path, serde_json::to_vec_pretty(&file).unwrap()).unwrap();
+    // add the event trace in a child process: the replayed run may crash or corrupt memory
+    if v["values"].is_array() && !sig.starts_with("crash|") {
+        let _ = std::process::Command::new(exe_for(v["profile"].as_str().unwrap_or("release")))
+            .arg(check.id()).arg("--annotate").arg(&path).arg("--tier").arg(tier.name())
+            .status();
+    }
     path
+}
+
+fn annotate_main(check: &dyn Check, f: &Path, tier: Tier) -> ! {
+    let b = std::fs::read(f).unwrap();
+    let mut file: Value = serde_json::from_slice(&b).unwrap();
+    let case = file["case"].as_u64().unwrap_or(0);
+    let vals: Vec<u32> = file["values"].as_array().unwrap().iter().map(|x| x.as_u64().unwrap_or(0) as u32).collect();
+    let out = check.run(case, Dec::from_list(vals), &RunOpts { record: true, tier });
+    file["decisions"] = decisions_json(&out.decisions);
+    file["trace_hash"] = json!(format!("{:016x}", out.hash));
+    let faults: Vec<&String> = out.events.iter().filter(|e| e.contains("fault")).collect();
+    file["fault_log"] = json!(faults);
+    file["events"] = json!(out.events);
+    file["reproduced_signature"] = json!(out.violation.as_ref().map(|x| x.sig.clone()));
+    std::fs::write(f, serde_json::to_vec_pretty(&file).unwrap()).unwrap();
+    std::process::exit(0);
 }
 
 fn parent_main(check: &dyn Check, a: &Args) -> ! {
@@ -552,7 +595,7 @@ fn parent_main(check: &dyn Check, a: &Args) -> ! {
             minimised += 1;
             let tmp = work_dir().join(format!("{id}.min.{:016x}.json", hash_str(sig)));
             std::fs::write(&tmp, serde_json::to_vec(&v).unwrap()).unwrap();
-            let st = std::process::Command::new(std::env::current_exe().unwrap())
+            let st = std::process::Command::new(exe_for(v["profile"].as_str().unwrap_or("release")))
                 .arg(id).arg("--minimise").arg(&tmp).arg("--tier").arg(a.tier.name())
                 .status();
             if st.is_ok_and(|s| s.success()) {
@@ -638,6 +681,29 @@ fn replay_main(check: &dyn Check, f: &Path, tier: Tier) -> ! {
     let v: Value = serde_json::from_slice(&b).unwrap_or_else(|e| harness_error(&format!("bad replay file: {e}")));
     let case = v["case"].as_u64().unwrap_or(0);
     let want = v["signature"].as_str().unwrap_or("").to_string();
+    let prof = v["profile"].as_str().unwrap_or("release");
+    if prof != current_profile() {
+        // re-execute under the build profile the violation was found with
+        let st = std::process::Command::new(exe_for(prof)).arg(check.id()).arg("--replay").arg(f).arg("--tier").arg(tier.name()).status();
+        std::process::exit(st.ok().and_then(|s| s.code()).unwrap_or(2));
+    }
+    if want.starts_with("crash|") {
+        // the run kills its process: replay it in a child, from its seed
+        use std::os::unix::process::ExitStatusExt;
+        let st = std::process::Command::new(std::env::current_exe().unwrap())
+            .arg(check.id()).arg("--case").arg(case.to_string())
+            .arg("--seed").arg(v["batch_seed"].as_u64().unwrap_or(1).to_string())
+            .arg("--tier").arg(tier.name())
+            .stdout(std::process::Stdio::null())
+            .status().unwrap_or_else(|e| harness_error(&format!("cannot spawn: {e}")));
+        if let Some(sig) = st.signal() {
+            println!("reproduced: child died with signal {sig} (recorded: {want})");
+            println!("VIOLATION property={} replay={}", check.id(), f.display());
+            std::process::exit(1);
+        }
+        println!("not reproduced: the replayed execution finished normally on this tree");
+        std::process::exit(0);
+    }
     let dec = match v["values"].as_array() {
         Some(vals) => Dec::from_list(vals.iter().map(|x| x.as_u64().unwrap_or(0) as u32).collect()),
         None => Dec::from_seed(v["seed"].as_u64().unwrap_or(0)),
